@@ -336,6 +336,79 @@ Definition m_flatten (args : list value) : res :=
   | _ => Err
   end.
 
+(* ------------------------------------------------------------------ *)
+(* The same functions after the repairs proposed in proposed_fixes/C16-*:
+   the correspondence check accepts either variant as "the mirror", and the
+   theorems state for the pinned variants where they miss the specification
+   and for the repaired variants that they meet it. *)
+
+(* Array.Get with "idx < 0 ||" added to the bound test *)
+Definition arr_get_fx (l : list value) (i : Z) : res :=
+  let last := zlen l - 1 in
+  if last <? 0 then Ok VNone
+  else if (i <? 0) || (i >? last) then Ok VNone
+  else match nth_error l (Z.to_nat i) with Some v => Ok v | None => Panic end.
+Definition m_nth_fx (args : list value) : res :=
+  match args with
+  | [VArr l; VInt i] => arr_get_fx l i
+  | _ => Err
+  end.
+
+(* Array.Slice with from clamped to 0 and to clamped to from *)
+Definition arr_slice_fx (l : list value) (from to : Z) : list value :=
+  let len := zlen l in
+  if from >=? len then []
+  else
+    let to1 := if to >? len then len else to in
+    let from1 := if from <? 0 then 0 else from in
+    let to2 := if to1 <? from1 then from1 else to1 in
+    firstn (Z.to_nat (to2 - from1)) (skipn (Z.to_nat from1) l).
+Definition m_slice_fx (args : list value) : res :=
+  match args with
+  | [VArr l; VInt s] => Ok (VArr (arr_slice_fx l s (zlen l)))
+  | [VArr l; VInt s; a2] =>
+      let to := match a2 with
+                | VInt n => if n >? 0 then s + n else zlen l
+                | _ => zlen l
+                end in
+      Ok (VArr (arr_slice_fx l s to))
+  | _ => Err
+  end.
+
+(* REMOVE_NTH with the capacity clamped at 0 *)
+Definition m_remove_nth_fx (args : list value) : res :=
+  match args with
+  | [VArr l; VInt i] => Ok (VArr (loop_remove_nth l 0 i))
+  | _ => Err
+  end.
+
+(* REMOVE_VALUE keeping an equal item when limit > -1 && counter >= limit *)
+Fixpoint loop_remove_value_fx (l : list value) (x : value) (counter limit : Z) : list value :=
+  match l with
+  | [] => []
+  | it :: r =>
+      if ceq it x then
+        if (limit >? -1) && (counter >=? limit) then it :: loop_remove_value_fx r x (counter + 1) limit
+        else loop_remove_value_fx r x (counter + 1) limit
+      else it :: loop_remove_value_fx r x counter limit
+  end.
+Definition m_remove_value_fx (args : list value) : res :=
+  match args with
+  | [VArr l; x] => Ok (VArr (loop_remove_value_fx l x 0 (-1)))
+  | [VArr l; x; VInt lim] => Ok (VArr (loop_remove_value_fx l x 0 lim))
+  | _ => Err
+  end.
+
+(* sections() with a per-array table of seen hashes: a value is added to its
+   bucket once per array *)
+Definition sections_fx (args : list value) (required : nat) : res :=
+  if arity_ge 2 args && all_arrays args then
+    Ok (VArr (map fst (filter (fun p => Nat.eqb (snd p) required)
+                               (buckets_of (concat (map (fun a => to_unique (items a)) args))))))
+  else Err.
+Definition m_intersection_fx (args : list value) : res := sections_fx args (List.length args).
+Definition m_outersection_fx (args : list value) : res := sections_fx args 1.
+
 (* ================================================================== *)
 (* Specifications                                                      *)
 
